@@ -748,6 +748,16 @@ impl Store {
         value: ValueEntry,
         force: bool,
     ) -> StoreResult<(bool, Option<Vec<AffectedLsSubscribers>>)> {
+        // a CAS insert with a version other than 0 can only succeed on an existing CAS value;
+        // reject it before any nodes are created, so a failed insert leaves no empty branch behind
+        if !force
+            && let ValueEntry::Cas(_, version) = &value
+            && *version != 0
+            && self.get_node(path).and_then(Node::value).is_none()
+        {
+            return Err(StoreError::CasVersionMismatch);
+        }
+
         let mut ls_subscribers: Option<Vec<(Vec<LsSubscriber>, &[String])>> = None;
         let mut current_node = &mut self.data;
         let mut current_subscribers = Some(&self.subscribers);
